@@ -43,9 +43,15 @@ class World:
             self.chains.pop(step["chain"], None)
 
     def readback(self, chain, lst):
-        """the rule list as the implementation holds it now (driver step "rules")"""
-        self.chains.setdefault(chain, {"registered": True, "validators": None})["rules"] = [
-            (RULE_ID.get(a, 6), st == "available", bool(m)) for a, st, m in (lst or [])]
+        """the rule list as the implementation holds it now (driver step "rules") - except for a chain whose LOGOUT was
+        approved: the specification (every rule of the chain is unbound, built-in or not) replaces the read-back"""
+        c = self.chains.setdefault(chain, {"registered": True, "validators": None})
+        c["rules"] = [(RULE_ID.get(a, 6), st == "available" and not c.get("logged_out"), bool(m)) for a, st, m in (lst or [])]
+
+    def spec_logout(self, chain):
+        c = self.chains.setdefault(chain, {"registered": True, "validators": None})
+        c["logged_out"] = True
+        c["rules"] = [(a, False, m) for a, _, m in c.get("rules", [])]
 
     def gchains(self):
         return glist(["(%s, {| a_trust := 0%%N; a_validators := %s |})" % (
@@ -332,6 +338,8 @@ def gen_logout(r, nm, script, junk, ledger, pipelined):
     pending the rule records still stand (IBTPs of the chain keep verifying); the third approval logs the chain out and
     clears its rules.  That deciding vote (block N) and an IBTP of the chain (block N+1) are delivered in lock-step or
     back to back: the IBTP must be checked against the state committed by block N"""
+    # a request TOWARDS the chain is accepted and stays pending: its receipt will be checked by the chain's rule
+    script.append(("block", [ibtp_op(nm, "u:1", "chainA", 1, "ok", dst="chainG")], {}))
     script.append(("block", [call_op("u:5", "appchain", "LogoutAppchain", [["s", "chainG"], ["s", "r"]], tag="logout_appchain")], {}))
     script.append(("rules", "chainG"))
     j = junk("pending")
@@ -340,6 +348,9 @@ def gen_logout(r, nm, script, junk, ledger, pipelined):
     for vo in votes[:-1]:
         script.append(("block", [vo], {}))
     script.append(("rules", "chainG"))
+    # from the approval on the SPECIFICATION of a logout stands for the chain's rule records: every rule is unbound
+    # (the read-back of the real records is no longer trusted for this chain)
+    script.append(("spec_logout", "chainG"))
     if pipelined:
         script.append(("pipeline", [[votes[-1]], [junk("pipelined")]], "chainG"))
     else:
@@ -348,6 +359,11 @@ def gen_logout(r, nm, script, junk, ledger, pipelined):
     j = junk("after")
     script.append(("check", dict(tx=j["tx"], pdesc=j["pdesc"]), None))
     script.append(("block", [junk("after_block")], {}))
+    # receipts for the request that is pending towards the logged-out chain: only the proof check guards them
+    for t in (1, 2):
+        rc = ibtp_op(nm, "u:1", "chainA", 1, "ok", typ=t, dst="chainG")
+        rc["tag"] = "receipt_from_logged_out_chain"
+        script.append(("block", [rc], {}))
     return dict(cfg=dict(admins=4, gas=0, audit=False, bal="1000000000000000", ledger=ledger), script=script, governed="logout", pipelined=pipelined)
 
 
@@ -467,6 +483,8 @@ def to_history(g):
             steps.append({"op": "restart"})
         elif item[0] == "rules":
             steps.append({"op": "rules", "chain": item[1]})
+        elif item[0] == "spec_logout":
+            steps.append({"op": "rules", "chain": item[1]})
         elif item[0] == "pipeline":
             steps.append({"op": "blocks", "group": [[o["tx"] for o in ops] for ops in item[1]], "chain": item[2]})
     return {"cfg": g["cfg"], "steps": steps, "timeout_ms": 90000}
@@ -490,6 +508,9 @@ def build_proof_rows(g, out, flagsets, ids):
             continue
         if item[0] == "rules":
             world.readback(item[1], ob.get("rules"))
+            continue
+        if item[0] == "spec_logout":
+            world.spec_logout(item[1])
             continue
         if item[0] == "pipeline":
             # blocks delivered back to back: no state dump between them; the frame is judged on lock-step blocks, the
@@ -547,6 +568,8 @@ def build_pool_row(g, out):
             world.seed(item[1])
         elif item[0] == "rules":
             world.readback(item[1], ob.get("rules"))
+        elif item[0] == "spec_logout":
+            world.spec_logout(item[1])
         elif item[0] == "restart":
             evs.append("HRestart")
         elif item[0] == "pipeline":
@@ -629,6 +652,8 @@ def build_verify_rows(g, out):
             world.readback(item[1], steps[si].get("rules"))
         if item[0] == "pipeline":
             world.readback(item[2], steps[si].get("rules"))
+        if item[0] == "spec_logout":
+            world.spec_logout(item[1])
         if item[0] != "check":
             continue
         ob = steps[si]
